@@ -71,7 +71,8 @@ def rand_tree(rng, depth, kind):
     names = rng.sample(NAMES, rng.randint(2, 4))
     for name in names:
         if depth > 0 and rng.random() < 0.55:
-            tree[name] = ['ns', _rand_ns_attrs(rng), rand_tree(rng, depth - 1, kind)]
+            # (one namespace in six has no ports of its own yet, e.g. a purely dynamic one)
+            tree[name] = ['ns', _rand_ns_attrs(rng), rand_tree(rng, depth - 1, kind) if rng.random() > 0.17 else {}]
         else:
             tree[name] = ['port', _rand_port_attrs(rng, kind)]
     return tree
